@@ -43,10 +43,10 @@ CLAIMS = {
                 tech='Verus on extracted ValueRange + Kani harnesses + K-snippet of SrcRange::evaluate',
                 ref='DESIGN.md §5 C17, §11'),
     'C22': dict(cat='other',
-                text='Opt::collect_pos / collect_neg / map — the fold every no_placeholder uses, including the :not inversion — against the C22 statement for sequences of at most 4 items (bounded model checking of the real generic code).',
-                note='The selector structures that call the fold (recursive Box/Vec/String code with iterator closures) are not covered.',
-                tech='Kani bounded proof harnesses',
-                ref='DESIGN.md §5 C22'),
+                text='Opt::collect_pos / collect_neg / map — the fold every no_placeholder uses, including the :not inversion — against the C22 statement for sequences of at most 4 items, and the real CompoundSelector / Selector / SelectorSet / Pseudo::no_placeholder on small concrete selector structures (a placeholder in a compound, in an ancestor, in a list, inside :is() and :not(); remaining selectors keep text and order; a list whose members are all removed is not emitted): bounded model checking of the real code.',
+                note='Only no_placeholder is covered; how Rule::write uses its result (the `*` fallback) and the selector parser/printer are not. Bounded: nothing counted as proved.',
+                tech='Kani bounded proof harnesses on the real selector structures',
+                ref='DESIGN.md §5 C22, §11'),
     'C26': dict(cat='proof',
                 text='The index arithmetic of string.slice and string.insert — how a 1-based, possibly negative Sass index becomes a code-point offset, and how many code points are taken — on the statement ranges extracted from the closures in sass/functions/string.rs each run: for EVERY i64 index pair and EVERY string length the selected positions are exactly i through j (empty when the range is empty), and insert puts the text before position i clamped to the string (loop-free, complete).',
                 note='string.length / index (chars().count(), find), the case functions, the quotedness of results and the application of the offsets by chars().skip().take() are not covered (iterator/str code out of reach of both verifiers).',
@@ -57,11 +57,16 @@ CLAIMS = {
                 note='nth/set-nth bodies beyond index_of, get_list (thorough-tier attempt), maps/arglists as lists are not covered; error text is stubbed (error presence is checked).',
                 tech='Kani proof harnesses; K-snippets of the list function closures',
                 ref='DESIGN.md §5 C28, §11'),
+    'C29': dict(cat='proof',
+                text='The rounding primitives behind math.ceil / floor / round / abs (Number::ceil, floor, round, abs, trunc) against their mathematical specification for ALL finite doubles (complete); the closures of math.ceil / floor / percentage and sass_round keep the unit and apply the primitive (ranges extracted each run, all finite doubles); find_extreme, the fold behind math.min / max, returns one of its arguments chosen after unit conversion and rejects incompatible units (concrete argument lists: bounded).',
+                note='clamp, pow, sqrt, log, exp, trigonometric functions (over-approximated by CBMC), math.div and the CSS-fallback forms (math/css.rs) are not covered.',
+                tech='Kani proof harnesses over all finite f64 + K-snippets of the math function closures',
+                ref='DESIGN.md §11'),
     'C31': dict(cat='proof',
-                text='Channel-range postconditions of Rgba::new/from_rgb/from_rgba/set_alpha, cap, Hsla::new, Hwba::new, Color::set_alpha and of the rgb<->hsl<->hwb conversions, max_min_largest, same-channels => == (all f64, complete). deg_mod itself is NOT verified: its callers are checked against an assumed contract of it.',
-                note='f64 % is not modelled by CBMC and Verus has no float arithmetic: deg_mod\'s contract is an unchecked assumption (listed in evidence); exact rgb->hsl->rgb round trip is attempted in the thorough tier only and reported as not proved on timeout. NaN inputs are excluded from range obligations.',
-                tech='Kani function contracts + proof harnesses over all f64',
-                ref='DESIGN.md §5 C31'),
+                text='Channel-range postconditions of Rgba::new/from_rgb/from_rgba/set_alpha, cap, Hsla::new, Hwba::new, Color::set_alpha and of the rgb<->hsl<->hwb conversions, max_min_largest, same-channels => == (all f64, complete). deg_mod: the contract its call sites are checked against is proved for the real body (text extracted each run) for all doubles, modulo the assumed IEEE contract of `f64 % 360.0`.',
+                note='Known finding: hsl() passes an out-of-range lightness through (lightness(hsl(0, 50%, 120%)) = 120%); the repair breaks 11 baseline spec tests. f64 % is not modelled by CBMC: its IEEE contract is an unchecked assumption (listed in evidence). The exact rgb->hsl->rgb round trip is attempted in the thorough tier only and reported as not proved on timeout. NaN inputs are excluded from range obligations. The Sass-level constructors (rgb(), hsl(), hwb() argument parsing) are not covered.',
+                tech='Kani function contracts + proof harnesses over all f64; K-snippet of deg_mod',
+                ref='DESIGN.md §5 C31, §11'),
     'C32': dict(cat='proof',
                 text='Laws of the Color methods the Sass functions call: invert∘invert = id (rgb, hsl), invert weight 0, rotate_hue(360) = id, rotate_hue(d) then (-d) for |d| <= 360, alpha untouched, set_alpha clamping; and the channel arithmetic of lighten, darken, saturate, desaturate, grayscale and complement on ranges extracted from the closures each run: the channel moves by exactly the amount, clamped to 0..100%, other channels unchanged, darken undoes lighten when nothing was clamped (all f64 in range, complete).',
                 note='mix, adjust, scale, change, opacify/transparentize closures are not covered. Hue laws rest on the assumed (unchecked) contract of deg_mod, which is exact only on [-360, 720].',
@@ -88,10 +93,9 @@ NA = {
     'C24': 'selector algebra (see C19)',
     'C25': 'selector algebra and selector parser (see C19)',
     'C27': 'escaping is Peekable<Chars> loops and core::fmt: CssString::unquote on a 3-byte string with one symbolic digit did not finish in 200 s; Verus has no str/char iteration',
-    'C29': 'built-in functions are closures in LazyLock tables whose construction runs the parser; transcendental functions are over-approximated by CBMC',
-    'C30': 'same as C29',
+    'C30': 'calc()/min()/max()/clamp() simplification lives in closures and recursive Value rewriting in sass/functions/math/css.rs (built through the LazyLock function table): out of reach of both verifiers',
     'C33': 'color text is produced by write! (unreachable) and a LazyLock BTreeMap of names; the reachable half (try_bytes) is proved under C31',
-    'C34': 'same as C29',
+    'C34': 'a relation between two entries of the LazyLock function tables (global and module forms), whose construction runs the parser: Kani cannot compile the tables, Verus cannot process them',
     'C35': 'parser/evaluator property',
     'C36': 'evaluator/module-graph property',
     'C37': 'module-graph property',
